@@ -197,7 +197,7 @@ PROPS = {
         "jl": True,
         "module": "Props.C08",
         "namespace": "Jl.C08",
-        "extra_theorem_files": [("Proofs.Stream", "Jl.Stream"), ("Proofs.ScannerLimit", "Jl.ScannerLimit"), ("Proofs.FlowTieStream", "Jl.FlowTie"), ("Proofs.FlowTieImport", "Jl.FlowTie")],
+        "extra_theorem_files": [("Proofs.Stream", "Jl.Stream"), ("Proofs.ScannerLimit", "Jl.ScannerLimit"), ("Proofs.FlowTieStream", "Jl.FlowTie"), ("Proofs.FlowTieImport", "Jl.FlowTie"), ("Proofs.JlTie", "Jl.JlTie")],
         "rule": ("for each of 5 streams (<= 4 lines; LF/CRLF/blank/rejected lines; with and without final newline; empty): the reader failing "
                  "at EVERY byte offset k (as (0,err) after k bytes, as (k,err) with the data, and after 1-byte reads) and the writer failing "
                  "at EVERY write index j (plain failure and short write), each under the default, tolerant and fail-at-call-1 processors; "
